@@ -41,7 +41,7 @@ fn spec_for(prop: &str, tier: &str, seed: u64) -> RunSpec {
         cases: if thorough { 20000 } else { 1500 },
         workers: 16,
         cpu_budget_s: 30.0,
-        wall_limit_s: if thorough { 3600.0 } else { 600.0 },
+        wall_limit_s: if thorough { 6.0 * 3600.0 } else { 1800.0 },
         variants: vec!["release".to_string()],
         crash_is_violation: false,
         level: "exploration".to_string(),
@@ -97,7 +97,7 @@ fn spec_for(prop: &str, tier: &str, seed: u64) -> RunSpec {
         "C18" => {
             s.rule = "scenarios against the real server binary on an ephemeral port (one process per scenario): 4-64 concurrent std::net client threads released by a barrier mix GET /health, POST /solve with fresh uniquely tagged valid instances (pre-screened by an isolated dry run; a third of them large), and the fixed list of fault kinds (not JSON, truncated JSON, wrong content type, empty body, 5 MB garbage, dribbled body, disconnect mid-body, missing field, dangling reference, bad timestamp, matrix mismatch, unknown route, wrong method) with seeded delays; the history is recorded at the client boundary from one monotonic clock (a request without a response stays open) and judged offline: health = 200 Healthy, every answered valid solve carries exactly its own departure segments and passes the C01-C05/C07 oracles for its own input, faults never yield a schedule, the process is alive and answers a health and a solve probe after the burst. non-trivial = distinct interleaving signatures of scenarios in which >= 2 valid solves overlapped each other and >= 1 overlapped a request that panics inside the handler".to_string();
             s.level = "fault_enumeration".to_string();
-            s.cases = if thorough { 400 } else { 32 };
+            s.cases = if thorough { 400 } else { 48 };
             s.workers = 8;
             s.cpu_budget_s = 900.0;
             s.min_nontrivial = 4;
